@@ -202,6 +202,9 @@ func checkC12(c *Ctx) {
 	}
 	checkTwinLookups(c, r)
 	checkPairwise(c, "C12.R3.pairwise", r)
+	checkPointerIdentity(c, "C12.R3.pointer-identity", r)
+	// a parameter is found by its name within its location: indexed by name alone, a header and a query parameter of one name take each other's place and the list order decides
+	checkLocations(c, "C12.R3.presence", pk)
 }
 
 // checkConstruction: the pointer fields assumed non-nil by construction are only ever set
